@@ -192,7 +192,7 @@ St0(s, sd, dpl, tk, faults) == [s |-> s, sd |-> sd, dp |-> dpl, calls |-> <<>>, 
 
 \* usage-report IEs of a Modification / Deletion response: UR-SEQN taken when the IE is emitted,
 \* bookkeeping of a removed URR dropped after its report
-EmitUsage(s, usars, extra) ==
+EmitUsage(s, usars, extra, dropRemoved) ==
   FoldLeft(LAMBDA acc, r :
      IF UrrEnt(acc.s, r.urr) = {} THEN acc
      ELSE LET x == CHOOSE x \in UrrEnt(acc.s, r.urr) : TRUE
@@ -203,7 +203,8 @@ EmitUsage(s, usars, extra) ==
                                tp |-> IF x.volum /\ x.mnop THEN r.vals.tp ELSE Dash, up |-> IF x.volum /\ x.mnop THEN r.vals.up ELSE Dash,
                                dp |-> IF x.volum /\ x.mnop THEN r.vals.dp ELSE Dash,
                                st |-> r.vals.st, et |-> r.vals.et, du |-> IF x.durat THEN r.vals.du ELSE Dash]]
-          IN [s |-> IF x.removed THEN [acc.s EXCEPT !.urrs = @ \ {x}] ELSE SetUrr(acc.s, [x EXCEPT !.seqn = @ + 1]),
+          \* only the Modification / Deletion response loops drop the bookkeeping of a removed URR (serveUSAReport does not)
+          IN [s |-> IF x.removed /\ dropRemoved THEN [acc.s EXCEPT !.urrs = @ \ {x}] ELSE SetUrr(acc.s, [x EXCEPT !.seqn = @ + 1]),
               ies |-> Append(acc.ies, ie)],
      [s |-> s, ies |-> <<>>], usars)
 
@@ -255,28 +256,32 @@ Heartbeat(p, q) ==
            /\ UNCHANGED <<nodes, slots, free, tx, txseq, dp, tok, rts>>
 
 \* RemoteNode.Reset: delete every session of the node (ascending SEIDs in the model)
-ResetNode(n, faults) ==
-  LET sds == SetToSortedSeq(nodes[n].sess)
-  IN FoldLeft(LAMBDA acc, i :
+\* the implementation walks a Go map: the order is not prescribed (ascending in the exhaustive configurations,
+\* the recorded order in lock-step validation)
+ResetNodeO(n, sds) ==
+  FoldLeft(LAMBDA acc, i :
         LET st == Close(St0(acc.sl[i], i, acc.dp, acc.tok, {})) IN
         [sl |-> [acc.sl EXCEPT ![i] = NoSess], fr |-> Append(acc.fr, i), dp |-> st.dp, tok |-> st.tok,
          calls |-> acc.calls \o st.calls],
         [sl |-> slots, fr |-> free, dp |-> dp, tok |-> tok, calls |-> <<>>], sds)
+ResetNode(n, faults) == ResetNodeO(n, SetToSortedSeq(nodes[n].sess))
 
-AssocSetup(p, q, n) ==
+AssocSetupO(p, q, n, order) ==
   LET e == [Ev("assoc") EXCEPT !.peer = p, !.seq = q, !.node = n]
       d == Seal([Dgram(p, MT_ASRSP, q) EXCEPT !.cause = CAUSE_OK, !.node = "upf", !.rts = Rts])
   IN /\ "assoc" \in Kinds
      /\ nseq' = [nseq EXCEPT ![p] = IF SeqNos = {} THEN q ELSE @]
      /\ \/ Retrans(e)
         \/ /\ ~IsRetrans(e)
-           /\ LET r == IF n \in DOMAIN nodes THEN ResetNode(n, {})
+           /\ LET r == IF n \in DOMAIN nodes THEN ResetNodeO(n, order)
                        ELSE [sl |-> slots, fr |-> free, dp |-> dp, tok |-> tok, calls |-> <<>>]
                   nds == [x \in (DOMAIN nodes) \cup {n} |-> IF x = n THEN [addr |-> p, sess |-> {}] ELSE nodes[x]]
               IN /\ slots' = r.sl /\ free' = r.fr /\ dp' = r.dp /\ tok' = r.tok /\ nodes' = nds
                  /\ rx' = RxAdd(e, <<d>>)
                  /\ Commit(e, r.calls, <<d>>, r.sl, r.fr, rx', tx, txseq, nds)
            /\ UNCHANGED <<tx, txseq, rts>>
+
+AssocSetup(p, q, n) == AssocSetupO(p, q, n, IF n \in DOMAIN nodes THEN SetToSortedSeq(nodes[n].sess) ELSE << >>)
 
 \* Association Update / Release Request: received, not supported, not answered
 AssocOther(p, q, t) ==
@@ -351,7 +356,7 @@ Modify(p, q, sref, lit, newnode, ops, faults, faults2) ==
                   sl0 == IF newnode = "" THEN slots
                          ELSE [j \in DOMAIN slots |-> IF slots[j].live /\ slots[j].node = s.node THEN [slots[j] EXCEPT !.node = newnode] ELSE slots[j]]
                   st == ApplyOps([St0(sl0[i], i, dp, tok, faults) EXCEPT !.faults2 = faults2], ops)
-                  em == EmitUsage(st.s, st.usars, 0)
+                  em == EmitUsage(st.s, st.usars, 0, TRUE)
                   d == Seal([Dgram(p, MT_MODRSP, q) EXCEPT !.hasseid = TRUE, !.seid = s.cp, !.cause = CAUSE_OK, !.rpts = em.ies])
                   sl == [sl0 EXCEPT ![i] = em.s]
               IN /\ (newnode # "" => newnode \notin DOMAIN nodes)     \* take-over onto an associated id: outside the model
@@ -376,7 +381,7 @@ Delete(p, q, sref, lit) ==
         \/ ~IsRetrans(e) /\ i = 0 /\ NotFound(e, MT_DELRSP)
         \/ /\ ~IsRetrans(e) /\ i # 0
            /\ LET r == DeleteSlot(i, {})
-                  em == EmitUsage(r.st.s, r.st.usars, TRIG_TERMR)
+                  em == EmitUsage(r.st.s, r.st.usars, TRIG_TERMR, TRUE)
                   d == Seal([Dgram(p, MT_DELRSP, q) EXCEPT !.hasseid = TRUE, !.seid = slots[i].cp, !.cause = CAUSE_OK, !.rpts = em.ies])
               IN /\ slots' = r.sl /\ free' = r.fr /\ dp' = r.st.dp /\ tok' = r.st.tok /\ nodes' = r.nds
                  /\ rx' = RxAdd(e, <<d>>)
@@ -400,7 +405,7 @@ Report(sref, lit, reps) ==
              /\ UNCHANGED <<nodes, slots, free, rx, tx, txseq, dp, rts, nseq>>
         ELSE LET s == slots[i]
                  to == NodePeer(s.node)
-                 em == EmitUsage(s, us, 0)
+                 em == EmitUsage(s, us, 0, FALSE)
                  \* downlink data report first (one per notification), then the usage report request
                  nocp == SelectSeq(dl, LAMBDA r : BitSet(r.action, ACT_NOCP))
                  dd == [j \in DOMAIN nocp |->
@@ -446,7 +451,7 @@ TxTimeout(p, q) ==
      /\ UNCHANGED <<nodes, slots, free, rx, txseq, dp, tok, rts, nseq>>
      /\ IF ts = {} THEN tx' = tx /\ Commit(e, <<>>, <<>>, slots, free, rx, tx, txseq, nodes)
         ELSE LET x == CHOOSE x \in ts : TRUE IN
-             IF x.n < MaxRt
+             IF x.n < g.maxrt      \* the configured retry limit (MaxRt in the exhaustive configurations, the trace's own in validation)
              THEN LET txs == (tx \ {x}) \cup {[x EXCEPT !.n = @ + 1]} IN
                   tx' = txs /\ Commit(e, <<>>, <<x.d>>, slots, free, rx, txs, txseq, nodes)
              ELSE tx' = tx \ {x} /\ Commit(e, <<>>, <<>>, slots, free, rx, tx \ {x}, txseq, nodes)
